@@ -142,7 +142,7 @@ pub fn sampling<M: Model, R: Conv<M::F>>(ctx: &Ctx<M, R>, rep: &mut Report, rng:
     }
 }
 
-pub fn toy<M: Model>(meta: &'static cfgs::toy_curves::ToyMeta, rep: &mut Report, rng: &mut Rng) {
+pub fn toy<M: Model>(meta: &'static ToyDesc, rep: &mut Report, rng: &mut Rng) {
     let ctx = toy_ctx::<M>(meta);
     rep.config(&format!("toy::{}", meta.name));
     let heff = Heff { h_eff: UInt::from(meta.h), desc: "COFACTOR" };
@@ -325,13 +325,13 @@ fn rhs_is_square<M: Model>(c: &M::F) -> Option<bool> {
 
 use ark_std::One as _;
 
-pub fn c11_toy<M: Model>(meta: &'static cfgs::toy_curves::ToyMeta, rep: &mut Report) {
+pub fn c11_toy<M: Model>(meta: &'static ToyDesc, rep: &mut Report) {
     let ctx = toy_ctx::<M>(meta);
     rep.config(&format!("toy::{}", meta.name));
     let ar = ctx.cur.ar.clone();
     let els = ar.elems();
     // all affine solutions of the curve equation (including, for incomplete Edwards curves, points outside the subgroup)
-    let mut all: Vec<([u64; 2], [u64; 2])> = vec![];
+    let mut all: Vec<([u64; 3], [u64; 3])> = vec![];
     for x in &els {
         for y in &els {
             if ctx.cur.on_curve(&Some((*x, *y))) {
@@ -340,7 +340,7 @@ pub fn c11_toy<M: Model>(meta: &'static cfgs::toy_curves::ToyMeta, rep: &mut Rep
         }
     }
     for c in &els {
-        let sols: Vec<[u64; 2]> = if M::TE { all.iter().filter(|(_, y)| y == c).map(|(x, _)| *x).collect() } else { all.iter().filter(|(x, _)| x == c).map(|(_, y)| *y).collect() };
+        let sols: Vec<[u64; 3]> = if M::TE { all.iter().filter(|(_, y)| y == c).map(|(x, _)| *x).collect() } else { all.iter().filter(|(x, _)| x == c).map(|(_, y)| *y).collect() };
         c11_check(&ctx, rep, c, Some(sols), true);
     }
     rep.exhaustive(&format!("toy::{}: coordinate recovery for every one of the {} field elements", meta.name, els.len()));
@@ -396,7 +396,7 @@ pub fn items(args: &Args) -> Vec<Item> {
     let mut v: Vec<Item> = vec![];
     macro_rules! toy_sw {
         ($name:literal, $cfg:ty) => {
-            let meta = cfgs::toy_curves::TOY_CURVES.iter().find(|m| m.name == $name).unwrap();
+            let meta = crate::model::toy_desc($name);
             v.push(Item::new(format!("c12/toy::{}", $name), move |rep, rng, _| {
                 for c in REQUIRED { rep.require(c); }
                 toy::<SWm<$cfg>>(meta, rep, rng)
@@ -405,7 +405,7 @@ pub fn items(args: &Args) -> Vec<Item> {
     }
     macro_rules! toy_te {
         ($name:literal, $cfg:ty) => {
-            let meta = cfgs::toy_curves::TOY_CURVES.iter().find(|m| m.name == $name).unwrap();
+            let meta = crate::model::toy_desc($name);
             v.push(Item::new(format!("c12/toy::{}", $name), move |rep, rng, _| toy::<TEm<$cfg>>(meta, rep, rng)));
         };
     }
@@ -431,6 +431,7 @@ pub fn items(args: &Args) -> Vec<Item> {
     crate::curves::for_each_shipped_sw!(sw);
     crate::curves::for_each_shipped_te!(te);
     cfgs::for_each_toy_sw!(toy_sw);
+    cfgs::for_each_toy_sw3!(toy_sw);
     cfgs::for_each_toy_te!(toy_te);
     v
 }
@@ -439,7 +440,7 @@ pub fn items_c11(args: &Args) -> Vec<Item> {
     let mut v: Vec<Item> = vec![];
     macro_rules! toy_sw {
         ($name:literal, $cfg:ty) => {
-            let meta = cfgs::toy_curves::TOY_CURVES.iter().find(|m| m.name == $name).unwrap();
+            let meta = crate::model::toy_desc($name);
             v.push(Item::new(format!("c11/curve/toy::{}", $name), move |rep, _rng, _| {
                 rep.require("recover: no solution");
                 rep.require("recover: two solutions returned");
@@ -450,7 +451,7 @@ pub fn items_c11(args: &Args) -> Vec<Item> {
     }
     macro_rules! toy_te {
         ($name:literal, $cfg:ty) => {
-            let meta = cfgs::toy_curves::TOY_CURVES.iter().find(|m| m.name == $name).unwrap();
+            let meta = crate::model::toy_desc($name);
             v.push(Item::new(format!("c11/curve/toy::{}", $name), move |rep, _rng, _| c11_toy::<TEm<$cfg>>(meta, rep)));
         };
     }
@@ -468,6 +469,7 @@ pub fn items_c11(args: &Args) -> Vec<Item> {
     crate::curves::for_each_shipped_sw!(sw);
     crate::curves::for_each_shipped_te!(te);
     cfgs::for_each_toy_sw!(toy_sw);
+    cfgs::for_each_toy_sw3!(toy_sw);
     cfgs::for_each_toy_te!(toy_te);
     v
 }
